@@ -800,6 +800,22 @@ def xtrace(facts, body, op_or_place, depth=4, deep=False, _seen=None, follow_ret
                                 res.append(rr)
             if not hit:
                 res.append(r)
+        elif r.kind == "param" and body.kind == "Closure" and isinstance(r.what, int) and r.what >= 2 and not _raw_params:
+            # a parameter of a local closure that is called directly (`let open = |name| ..; open("meta")`)
+            hit = False
+            for (cid, cb, kind) in [c for c in facts.callers().get(body.id, []) if c[2] == "call"]:
+                cbody = facts.bodies[cid]
+                sp = _spread_args(cbody, cbody.term(cb))
+                if sp is None or r.what - 1 >= len(sp):
+                    continue
+                key = (cid, cb, r.what - 1, r.fields)
+                if key in _seen:
+                    continue
+                _seen.add(key)
+                hit = True
+                res.extend(xtrace(facts, cbody, sp[r.what - 1], depth - 1, deep, _seen, follow_returns, r.path))
+            if not hit:
+                res.append(r)
         elif r.kind == "param" and body.kind != "Closure":
             if _raw_params:
                 # evaluated on behalf of one particular call site, which binds the parameter to its own argument
@@ -822,7 +838,7 @@ def xtrace(facts, body, op_or_place, depth=4, deep=False, _seen=None, follow_ret
                 _seen.add(key)
                 for rr in xtrace(facts, cbody, t["args"][ai], depth - 1, deep, _seen, follow_returns, r.path):
                     res.append(rr)
-        elif r.kind == "call" and r.what in facts.bodies and follow_returns and facts.bodies[r.what].kind != "Closure":
+        elif r.kind == "call" and r.what in facts.bodies and follow_returns and (facts.bodies[r.what].kind != "Closure" or _spread_args(body, r.obj) is not None):
             cal = facts.bodies[r.what]
             key = ("ret", body.id, r.bb, r.what, r.fields)
             if key in _seen:
@@ -835,6 +851,9 @@ def xtrace(facts, body, op_or_place, depth=4, deep=False, _seen=None, follow_ret
                 if rr.kind in ("param",) and rr.body == cal.id:
                     # the returned value is (part of) a parameter of the callee: bind it to the argument of THIS call
                     t = r.obj
+                    if cal.kind == "Closure":
+                        # a local closure called directly: (env, (a0, a1, ..)) at the call site, (env, a0, a1, ..) in its body
+                        t = {"k": "call", "args": _spread_args(body, r.obj)}
                     ai = rr.what - 1
                     if isinstance(t, dict) and t.get("k") == "call" and 0 <= ai < len(t["args"]):
                         bkey = ("bind", body.id, r.bb, ai, rr.fields)
@@ -843,11 +862,24 @@ def xtrace(facts, body, op_or_place, depth=4, deep=False, _seen=None, follow_ret
                             res.extend(xtrace(facts, body, t["args"][ai], depth - 1, deep, _seen, follow_returns, rr.path))
                     continue
                 if rr.body == cal.id and rr.ctx is None:
-                    rr.ctx = (body.id, r.obj)
+                    rr.ctx = (body.id, r.obj if cal.kind != "Closure" else {"k": "call", "args": _spread_args(body, r.obj)})
                 res.append(rr)
         else:
             res.append(r)
     return res
+
+
+def _spread_args(body, t):
+    """operands [env, a0, a1, ..] of a direct call of a closure `f(env, (a0, a1, ..))`; None when the tuple is not built here"""
+    if not isinstance(t, dict) or t.get("k") != "call" or len(t.get("args", [])) != 2:
+        return None
+    tup = t["args"][1]
+    if tup["k"] not in ("copy", "move") or tup["pl"].get("p"):
+        return None
+    ds = body.defs().get(tup["pl"]["l"], [])
+    if len(ds) != 1 or ds[0][2] != "assign" or ds[0][3]["rv"]["k"] != "agg" or ds[0][3]["rv"].get("ak") != "tuple":
+        return None
+    return [t["args"][0]] + list(ds[0][3]["rv"]["ops"])
 
 
 def _extend(root, path):
